@@ -41,6 +41,8 @@ def run(ctx):
             return True
         return cfg.get("freeze") == 1 and not any(isinstance(e, dict) and e.get("e") == "ProducersDone" for e in ev)
     B.report_abnormal(ctx, abnormal, "batch", only_if=relevant)
+    from props import _simple
+    _simple.run_simple(ctx, "C01")     # exactly once per exporter through providers / multi processors
     ctx.evaluations = ctx.traces
     ctx.distinct.update(range(ctx.traces))
 
